@@ -71,14 +71,16 @@ type Pkt struct {
 	Ack        packettypes.Acknowledgement
 	Acked      bool
 	AckedAt    int64
+	AckTried   bool // a genuine first acknowledgement was delivered and refused
 	Refunded   bool
 	AckRelayer kit.Account // relayer (teleport account) that delivered the receive
 
-	Callback bool           // the sender named the counter contract as callback address
-	ViaAgent bool           // outer packet whose call data asks the agent contract to forward the tokens
-	RefundTo common.Address // agent-sent packet: address the agent refunds on failure
-	Nested   []*Pkt         // packets sent by the destination callback of this packet (observed in the receive tx)
-	Parent   *Pkt           // for a nested packet: the packet whose callback sent it
+	Callback     bool           // the sender named the counter contract as callback address
+	CallbackAddr common.Address // the callback address named by the sender (zero: none)
+	ViaAgent     bool           // outer packet whose call data asks the agent contract to forward the tokens
+	RefundTo     common.Address // agent-sent packet: address the agent refunds on failure
+	Nested       []*Pkt         // packets sent by the destination callback of this packet (observed in the receive tx)
+	Parent       *Pkt           // for a nested packet: the packet whose callback sent it
 }
 
 // World is the multi-chain fixture plus the model.
@@ -404,7 +406,7 @@ func (w *World) Send(s SendSpec, wantDumps bool) *SendOutcome {
 		pk := &Pkt{ID: len(w.Pkts), Bz: bz, P: p, T: Triple{p.SrcChain, p.DstChain, p.Sequence}, SrcIdx: s.Src, DstIdx: w.Idx(p.DstChain),
 			Token: s.Token, Amount: new(big.Int).Set(s.Amount), Fee: new(big.Int).Set(s.Fee), FeeTok: s.Token, Sender: w.Users[s.User],
 			Call: s.Call, SentAt: c.Header.Height, ViaAgent: strings.HasPrefix(s.Call, "agent:"), RefundTo: w.Users[s.User].Addr,
-			Callback: s.Callback == w.Counter || s.Callback == w.Moody}
+			Callback: s.Callback == w.Counter || s.Callback == w.Moody, CallbackAddr: s.Callback}
 		if common.IsHexAddress(s.Receiver) {
 			pk.RecvAdr = common.HexToAddress(s.Receiver)
 		}
